@@ -21,7 +21,8 @@ def run(res):
                  "references), own testing.TB (Fatal/Skip = runtime.Goexit in the test goroutine), per-test watchdog (servers stopped, test counted as failed), "
                  "wire-level monitor (Get ALL + VerifSessions + VerifPendingIDs after every test; election ids recorded by a wrapping GRIBIServer), "
                  "fault wrappers around *server.Server (faults.go)"],
-        assumptions=["two faults are judged by the harness alone (numbers 16, 17: unknown to Compliance.v, model_pass = None): wrong_reject_reason (every ModifyRPCErrorDetails reason replaced by another one; code and message kept) and leak_results_to_other_sessions (every response with results is first copied to every other open Modify stream); they guard the checkers and the client the suite is built from (chk.HasRecvClientErrorWithStatus ignoring details, a client that no longer records a result for an unknown operation as an error)",
+        assumptions=["a test that the fault leaves waiting is normally stopped after 4 s and counted as failed; one FIB-ACK test per run (chosen by the seed) is instead given 150 s against the server that never sends the FIB acknowledgement, in a child process beside the other cases: it must end by itself, with a failure (the suite bounds each of its waits by a minute; a test that waits without bound reports nothing)",
+                     "two faults are judged by the harness alone (numbers 16, 17: unknown to Compliance.v, model_pass = None): wrong_reject_reason (every ModifyRPCErrorDetails reason replaced by another one; code and message kept) and leak_results_to_other_sessions (every response with results is first copied to every other open Modify stream); they guard the checkers and the client the suite is built from (chk.HasRecvClientErrorWithStatus ignoring details, a client that no longer records a result for an unknown operation as an error)",
                      "designated tests: for omit_fib every test of compliance.TestSuite that declares RequiresFIBACK (enumerated from the suite at run time), for "
                      "omit_fib_for_deletes_only those of them that delete entries, must fail - each run concurrently on its own fresh faulty server (the same batch "
                      "must pass concurrently on the reference); only the 16 transcribed tests are also judged by the model (designated_of, by computation), every "
